@@ -203,10 +203,12 @@ def gen_isa(rng, prof):
         r = rng.random()
         if count > 0 and r < 0.75:
             names = [rng.choice(setnames) for _ in range(count)]
+            if count == 2 and rng.random() < 0.35:
+                names = [names[0], names[0]]
             p['sets'] = {'list': names, 'rev_arg': rng.random() < 0.4, 'rev_code': rng.random() < 0.4, 'disallowed': []}
-            if rng.random() < 0.15:
+            if rng.random() < (0.5 if count == 2 and names[0] == names[1] else 0.12):
                 ids = [rng.choice(isa['sets'][n])['id'] for n in names]
-                p['sets']['disallowed'].append(ids)
+                p['sets']['disallowed'].append(ids)          # deliberately not symmetric
         if r >= 0.6 or p['sets'] is None:
             specs = []
             for _ in range(rng.randint(1, 2)):
@@ -228,8 +230,27 @@ def gen_isa(rng, prof):
             v['parser'] = gen_parser(cnt)
         return v
 
+    def narrow_parser(p):
+        """a parser accepting a subset of what p's operand sets accept: one alternative per position, listed explicitly"""
+        if not p or not p['sets']:
+            return None
+        ops = []
+        for n in p['sets']['list']:
+            a = dict(rng.choice(isa['sets'][n]))
+            isa['n'] += 1
+            a['id'] = f'op{isa["n"]}'
+            if 'idx' in a:
+                a['idx'] = [dict(i, id=f'{i["id"]}n{isa["n"]}') for i in a['idx']]
+            ops.append(a)
+        return {'count': p['count'], 'specific': [{'ops': ops, 'rev_arg': rng.random() < 0.4, 'rev_code': rng.random() < 0.4}], 'sets': None}
+
     for mn in rng.sample(MNEMONICS, rng.randint(2, 5)):
-        isa['instrs'][mn] = [gen_variant() for _ in range(rng.randint(1, 3))]
+        vs = [gen_variant() for _ in range(rng.randint(1, 3))]
+        if len(vs) >= 2 and rng.random() < 0.4:
+            np_ = narrow_parser(vs[1]['parser'])
+            if np_:
+                vs[0]['parser'] = np_          # variant 0 accepts a strict subset of what variant 1 accepts
+        isa['instrs'][mn] = vs
     if rng.random() < prof.get('p_macros', 0.4):
         for mn in rng.sample(MACROS, rng.randint(1, 2)):
             mvs = []
@@ -239,6 +260,21 @@ def gen_isa(rng, prof):
                 for _ in range(rng.randint(1, 3)):
                     mv['steps'].append(gen_step(rng, isa, mv['parser']))
                 mvs.append(mv)
+            if len(mvs) >= 2 and rng.random() < 0.5:
+                np_ = narrow_parser(mvs[1]['parser'])
+                if np_:
+                    mvs[0]['parser'] = np_
+                    mvs[0]['steps'] = [gen_step(rng, isa, np_) for _ in range(rng.randint(1, 2))]
+                    if rng.random() < 0.5:
+                        # a placeholder that cannot be filled by what this variant matches: the invocation must be
+                        # rejected, not handed on to the next variant
+                        k0 = np_['specific'][0]['ops'][0]['kind']
+                        ph = 'ARG' if k0 in ('register', 'numeric_bytecode') else 'REG'
+                        if k0 in ('register', 'numeric_bytecode', 'numeric', 'indirect_numeric', 'deferred_numeric', 'address',
+                                  'relative_address', 'enumeration', 'numeric_enumeration'):
+                            tgt = [m for m, vs_ in isa['instrs'].items() if any(v_['parser'] and v_['parser']['count'] == 1 for v_ in vs_)]
+                            if tgt:
+                                mvs[0]['steps'].append({'mn': rng.choice(tgt), 'ops': [[('ph', ph, 0)]]})
             isa['macros'][mn] = mvs
     return isa
 
@@ -280,7 +316,7 @@ def gen_step(rng, isa, macro_parser):
             if ph == 'ARG' and rng.random() < 0.3:
                 t = t + [('tok', '+', t_op('OAdd')), ('tok', '1', t_num(1))]
             ops.append(t)
-        elif r < 0.95 or not mkinds:
+        elif r < 0.9 or not mkinds:
             x = operand_for(rng, alt, [], 0)
             ops.append([('lit', [x.text, x.toks])])
         else:
@@ -668,10 +704,10 @@ def random_operand(rng, labels):
     return x_expr(rng, labels, regs_ok=rng.random() < 0.3, depth=1)
 
 
-def gen_statement(rng, isa, labels, addr_hint):
-    """['asm', mnemonic, [Txt operands]]"""
+def gen_statement(rng, isa, labels, addr_hint, focus=None):
+    """['asm', mnemonic, [[text, tokens] operands]]"""
     pool = list(isa['instrs']) + list(isa['macros'])
-    mn = rng.choice(pool)
+    mn = focus if focus and rng.random() < 0.6 else rng.choice(pool)
     vs = isa['instrs'].get(mn) or isa['macros'].get(mn)
     v = rng.choice(vs)
     p = v['parser']
@@ -683,6 +719,14 @@ def gen_statement(rng, isa, labels, addr_hint):
             src = [o for o in sp['ops']]
         elif p['sets']:
             src = [rng.choice(isa['sets'][n]) for n in p['sets']['list']]
+            if p['sets']['disallowed'] and rng.random() < 0.6:
+                ids = list(p['sets']['disallowed'][0])
+                if rng.random() < 0.7:
+                    ids.reverse()              # the mirrored combination is NOT disallowed
+                byid = {a['id']: a for n in p['sets']['list'] for a in isa['sets'][n]}
+                cand = [byid.get(i) for i in ids]
+                if all(c is not None for c in cand) and all(c in isa['sets'][n] for c, n in zip(cand, p['sets']['list'])):
+                    src = cand
         for alt in src or []:
             if alt['kind'] == 'empty':
                 continue
@@ -720,13 +764,14 @@ def gen_isa_case(rng, prof, tier):
     addr = cfg['origin']
     n = rng.randint(1, 4) if tier == 'quick' else rng.randint(1, 10)
     placed = set()
+    focus = rng.choice(list(isa['macros']) or list(isa['instrs'])) if rng.random() < 0.6 else None
     for i in range(n):
         if rng.random() < 0.2:
             cands = [x for x in ('lbl1', 'lbl2') if x not in placed]
             if cands:
                 placed.add(cands[0])
                 stmts.append(['label', cands[0]])
-        stmts.append(gen_statement(rng, isa, labels, addr))
+        stmts.append(gen_statement(rng, isa, labels, addr, focus))
         addr += 2
     for x in ('lbl1', 'lbl2'):
         if x not in placed:
